@@ -181,9 +181,9 @@ def run(index, rep, tier):
         rep.check(args == want, "R01.3", csb.qualname, "normalize_bitmask(%s)" % args, fn_where(csb, nb[0]), "unrooted split = normalize(leafset, fill=tree leafset, lowest bit of tree leafset)",
                   "compile_split_bitmask normalises with %s instead of %s" % (args, want))
         # rooted branch keeps the leafset
-        rooted = [n for n in walk_no_nested(csb.node) if isinstance(n, ast.If) and norm(n.test) == "self._is_rooted"]
-        ok = bool(rooted) and any(isinstance(s, ast.Assign) and norm(s.targets[0]) == "self._split_bitmask" and norm(s.value) == "self._leafset_bitmask" for s in rooted[0].body) \
-            and any(x is nb[0] for s in rooted[0].orelse for x in ast.walk(s))
+        rooted = [pos_if(n) for n in walk_no_nested(csb.node) if isinstance(n, ast.If) and norm(pos_if(n)[0]) == "self._is_rooted"]
+        ok = bool(rooted) and any(isinstance(s, ast.Assign) and norm(s.targets[0]) == "self._split_bitmask" and norm(s.value) == "self._leafset_bitmask" for s in rooted[0][1]) \
+            and any(x is nb[0] for s in rooted[0][2] for x in ast.walk(s))
         rep.check(ok, "R01.3", csb.qualname, "rooted: split = leafset; unrooted: normalised", fn_where(csb), "rooted trees keep the leafset mask as split mask, unrooted ones normalise",
                   "compile_split_bitmask no longer sets split = leafset for rooted trees and the normalised mask for unrooted ones")
         for name in ("_compile_mutable_bipartition_for_edge", "_compile_immutable_bipartition_for_edge"):
